@@ -1,7 +1,8 @@
 package chainsim
 
 import (
-	"cosmossdk.io/math"
+	sdk "github.com/cosmos/cosmos-sdk/types"
+	pairingtypes "github.com/lavanet/lava/v5/x/pairing/types"
 	"github.com/lavanet/lava/v5/zz_verif/simrt"
 )
 
@@ -10,28 +11,65 @@ var chainStub = []string{"bank and account keepers (repo's in-memory mock; GetSu
 var chainAssume = []string{"results about supply/solvency concern lava's calls into the bank API, not x/bank itself", "transactions are atomic as in baseapp (cache context + mock-bank snapshot, provided by the harness)", "messages pass ValidateBasic before reaching a handler"}
 
 func historyNonTrivial(r *simrt.Run) bool {
-	return r.OKOps() >= 10 && r.Ops["relay:ok"] >= 1 && r.FaultsFired() >= 1
+	return r.OKOps() >= 10 && r.Extra["blocks_observed"] >= 20
 }
 
-// ---------- C09: token supply never increases ----------
+// ---------- history themes ----------
+//
+// C09 (supply) and C37 (no halt) quantify over *all* histories of lava transactions, governance
+// proposals and block boundaries. Besides their own generic generator they are therefore decided
+// on the histories of every other chain property's generator (subscription/plan governance,
+// IPRPC funding, slashes, unresponsiveness complaints, conflicts, parameter changes, spec
+// contributors, reputation, ...): a run draws a theme, the monitors are attached to every World
+// the theme creates (worldInitHooks), and the theme's own oracles are ignored (OnlyClasses) —
+// they are decided by their own checks.
+type theme struct {
+	name string
+	fn   simrt.PropFn
+}
 
-func runC09(r *simrt.Run) {
-	cfg := mkCfg(r, baseWeights(), 80, 400)
-	s := NewSim(r, cfg)
-	last := s.Supply()
-	check := func(where string) {
-		cur := s.Supply()
-		r.OracleEvals++
-		if cur.GT(last) {
-			r.Fail("supply-increased", where, "bond-denom supply rose from %s to %s (+%s) at height %d during %s", last, cur, cur.Sub(last), s.Height(), where)
-		}
-		if cur.LT(last) {
-			r.Probe("supply_burned")
-		}
-		last = cur
+var themes []theme
+
+func init() {
+	themes = []theme{
+		{"generic", nil}, {"generic", nil}, {"generic-tiny", nil},
+		{"C02", runC02}, {"C03", runC03}, {"C04", runC04}, {"C05", runC05}, {"C06", runC06}, {"C07", runC07}, {"C08", runC08},
+		{"C10", runC10}, {"C11", runC11}, {"C12", runC12}, {"C13", runC13}, {"C16", runC16}, {"C17", runC17}, {"C18", runC18},
+		{"C19", runC19}, {"C20", runC20}, {"C21", runC21}, {"C22", runC22}, {"C23", runC23}, {"C24", runC24}, {"C42", runC42},
 	}
-	s.AfterTx = append(s.AfterTx, func(w *World, tx *TxResult) { check("tx:" + tx.Name) })
-	s.AfterBlock = append(s.AfterBlock, func(w *World) { check("block") })
+}
+
+// runThemed runs one history of a drawn theme with `attach` called on every World created.
+func runThemed(r *simrt.Run, classes []string, attach func(w *World), generic func(r *simrt.Run, tiny bool)) {
+	t := themes[r.Draw("cfg", len(themes))]
+	r.Probe("theme_" + t.name)
+	r.Logf("history theme: %s", t.name)
+	worldInitHooks = append(worldInitHooks, func(w *World) {
+		w.AfterBlock = append(w.AfterBlock, func(*World) { r.Extra["blocks_observed"]++ })
+		attach(w)
+	})
+	defer func() { worldInitHooks = nil }()
+	if t.fn == nil {
+		generic(r, t.name == "generic-tiny")
+		return
+	}
+	r.OnlyClasses = map[string]bool{}
+	for _, c := range classes {
+		r.OnlyClasses[c] = true
+	}
+	t.fn(r)
+}
+
+// genericHistory is the base generator; `tiny` adds the degenerate economy (relays of 1..3 CU with
+// zero QoS scores, so that tracked CU can be zero although relays were paid).
+func genericHistory(r *simrt.Run, tiny bool) {
+	w8 := baseWeights()
+	if tiny {
+		w8["tiny_relays"] = 25
+		w8["relay"] = 3
+	}
+	cfg := mkCfg(r, w8, 80, 400)
+	s := NewSim(r, cfg)
 	s.Warmup()
 	for i := 0; i < cfg.Steps; i++ {
 		s.StepOp()
@@ -40,27 +78,92 @@ func runC09(r *simrt.Run) {
 	for i := 0; i < 3; i++ {
 		s.OpBlocks()
 	}
-	_ = math.ZeroInt
+}
+
+// opTinyRelays: the degenerate economy — relays of 1..3 CU whose QoS report has zero (or near
+// zero) scores, so that the CU tracked for the provider after QoS can be 0 although a relay was paid.
+func (s *Sim) opTinyRelays() {
+	r := s.R
+	c := s.pickCons()
+	signer := s.signerFor(c)
+	spec := s.pickSpec()
+	paired := s.pairedProvidersFor(signer, spec.Index)
+	if len(paired) == 0 {
+		r.Op("tiny_relays", "skip")
+		return
+	}
+	n := 1 + r.Draw("ops", 3)
+	for i := 0; i < n; i++ {
+		p := paired[r.Draw("ops", len(paired))]
+		s.sessionSeq++
+		rs := RelaySpec{Consumer: c, Signer: signer, Provider: p, Spec: spec.Index, Epoch: int64(s.EpochStart()), Session: s.sessionSeq,
+			CuSum: uint64(1 + r.Draw("ops", 3)), RelayNum: 1}
+		switch r.Draw("ops", 4) {
+		case 0:
+		case 1:
+			rs.Qos = s.randQos("ops")
+		default:
+			z := sdk.ZeroDec()
+			rs.Qos = &pairingtypes.QualityOfServiceReport{Latency: z, Availability: z, Sync: z}
+			if r.Chance("ops", 1, 3) {
+				rs.Qos.Latency = sdk.NewDecWithPrec(1, 2)
+			}
+		}
+		rel := s.BuildRelay(rs)
+		res := s.SendRelayPayment("relay", p, []*pairingtypes.RelaySession{rel})
+		r.Logf("tiny relay %s<-%s %s cu=%d qos=%v: %s", p.Acc.Name, c.Acc.Name, spec.Index, rs.CuSum, rs.Qos != nil, short(res.Err))
+	}
+}
+
+// ---------- C09: token supply never increases ----------
+
+func runC09(r *simrt.Run) {
+	runThemed(r, []string{"supply-increased"}, func(w *World) {
+		started := false
+		var last = w.Supply()
+		check := func(where string) {
+			cur := w.Supply()
+			if !started {
+				// world construction (genesis accounts, validators) mints by design
+				last = cur
+				return
+			}
+			r.OracleEvals++
+			if cur.GT(last) {
+				r.Fail("supply-increased", where, "bond-denom supply rose from %s to %s (+%s) at height %d during %s", last, cur, cur.Sub(last), w.Height(), where)
+			}
+			if cur.LT(last) {
+				r.Probe("supply_burned")
+			}
+			last = cur
+		}
+		w.BeforeTx = append(w.BeforeTx, func(w *World, name string) {
+			// harness-side funding of new accounts between transactions is not a lava mint:
+			// re-base on the supply seen right before each transaction and block
+			started = true
+			last = w.Supply()
+		})
+		w.BeforeBlock = append(w.BeforeBlock, func(w *World) { started = true; last = w.Supply() })
+		w.AfterTx = append(w.AfterTx, func(w *World, tx *TxResult) { check("tx:" + tx.Name) })
+		w.AfterBlock = append(w.AfterBlock, func(w *World) { check("block") })
+	}, genericHistory)
 }
 
 // ---------- C37: block processing never halts ----------
 
 func runC37(r *simrt.Run) {
-	cfg := mkCfg(r, baseWeights(), 80, 400)
-	s := NewSim(r, cfg)
-	s.HaltOnBlockPanic = true
-	s.Warmup()
-	for i := 0; i < cfg.Steps; i++ {
-		s.StepOp()
-	}
-	r.OracleEvals += int(s.Height())
+	runThemed(r, []string{"block-panic"}, func(w *World) {
+		w.HaltOnBlockPanic = true
+		w.AfterBlock = append(w.AfterBlock, func(*World) { r.OracleEvals++ })
+	}, genericHistory)
 }
 
 func init() {
+	AddOp("tiny_relays", (*Sim).opTinyRelays)
 	simrt.Register("C09", &simrt.PropSpec{Fn: runC09, NonTrivial: historyNonTrivial,
-		Rule:    "tape-generated multi-actor histories (stake/unstake/freeze/move, dual-staking and staking-module delegations, subscriptions, projects, keys, policies, relay payments) over a simulated block clock with downtime gaps, hour and multi-week jumps; supply compared after every transaction, BeginBlock+EndBlock pair. Non-trivial = >=10 accepted operations incl. a paid relay and >=1 clock fault; distinct = (op,outcome,fault) sequence hash",
+		Rule:    "each run draws a history theme: the generic multi-actor generator (stake/unstake/freeze/move, dual-staking and staking-module delegations, subscriptions, projects, keys, policies, relay payments with QoS; one variant with 1..3-CU relays and zero QoS) or the generator of one of the other chain properties (C02-C08, C10-C13, C16-C24, C42: plan/spec governance, IPRPC funding, slashes, complaints and jailing, conflicts and votes, parameter changes, spec contributors, badges, reputation) whose own oracles are ignored here; the bond-denom supply is compared across every transaction and every BeginBlock+EndBlock pair of the history (harness-side account funding between them is re-based). Non-trivial = >=10 accepted operations and >=20 observed blocks; distinct = (op,outcome,fault) sequence hash",
 		Real:    chainReal, Stubbed: chainStub, Assume: chainAssume})
 	simrt.Register("C37", &simrt.PropSpec{Fn: runC37, NonTrivial: historyNonTrivial,
-		Rule:    "same histories as C09 with recover() around every Begin/EndBlock: a recovered panic on a history of committed transactions is the violation. Non-trivial = >=10 accepted operations incl. a paid relay and >=1 clock fault",
+		Rule:    "same themed histories as C09 with recover() around every Begin/EndBlock: a recovered panic on a history of committed transactions is the violation (signature = first lava frame). Non-trivial = >=10 accepted operations and >=20 observed blocks",
 		Real:    chainReal, Stubbed: chainStub, Assume: chainAssume})
 }
